@@ -8,8 +8,8 @@ Proof. vm_compute. reflexivity. Qed.
 
 Lemma estep_eqb_eq a b : estep_eqb a b = true -> a = b.
 Proof.
-  destruct a, b; simpl; try discriminate; try reflexivity.
-  intros H. apply Bool.eqb_prop in H. subst. reflexivity.
+  destruct a, b; simpl; try discriminate; try reflexivity;
+    intros H; apply Bool.eqb_prop in H; subst; reflexivity.
 Qed.
 
 Lemma plan_eqb_eq a : forall b, plan_eqb a b = true -> a = b.
@@ -90,12 +90,14 @@ Proof. induction ns as [|m r IH]; simpl; [reflexivity | exact IH]. Qed.
 
 (* what evaluate() does on the last statement when the plan is the good one *)
 Definition good_tail (last : stmt) (e : N) : list ev :=
-  [EvExpr e] ++ (EvStoreName result_name e :: map (fun n => EvStoreName n e) (if is_assign last then name_targets last else []))
+  [EvExpr e]
+  ++ (EvStoreName result_name e ::
+      map (fun n => EvStoreName n e) (if is_assign last && (false || negb (has_complex last)) then name_targets last else []))
   ++ (if is_assign last && has_complex last then map (store e) (s_targets last) else []) .
 
 Lemma shape_ok_parts sh : shape_ok sh = true ->
   forallb (fun k => N.eqb k k_Expr || N.eqb k k_Assign) (sh_kinds sh) = true /\
-  sh_popped sh = [ExecBody; EvalLast; BindResultNames; ExecComplexAssign true] /\
+  sh_popped sh = [ExecBody; EvalLast; BindResultNames false; ExecComplexAssign true] /\
   sh_other sh = [ExecBody; BindResultLastGlobal].
 Proof.
   unfold shape_ok. intros H. apply andb_true_iff in H. destruct H as [H H3].
@@ -131,27 +133,109 @@ Proof.
   unfold is_expr, is_assign. intros H. apply N.eqb_eq in H. rewrite H. exact kinds_distinct.
 Qed.
 
-(* 1. every side effect happens exactly once, in the order of plain execution *)
-Lemma effects_equal sh p :
-  shape_ok sh = true -> prog_wf p = true -> effects (evaluate_events sh p) = effects (plain p).
+(* ---- the program's own events ---------------------------------------------------------------------------------- *)
+Definition targets_wf (ts : list target) : bool :=
+  forallb (fun t => match t with TName n => negb (N.eqb n result_name) | _ => true end) ts.
+
+Lemma stmt_wf_targets s : stmt_wf s = true -> targets_wf (s_targets s) = true.
+Proof. unfold stmt_wf, targets_wf. intros H. apply andb_true_iff in H. tauto. Qed.
+
+Lemma program_events_app a b : program_events (a ++ b) = program_events a ++ program_events b.
+Proof. unfold program_events. apply filter_app. Qed.
+
+Lemma program_events_stores e ts : targets_wf ts = true -> program_events (map (store e) ts) = map (store e) ts.
+Proof.
+  unfold program_events, targets_wf. induction ts as [|t r IH]; simpl; [reflexivity|].
+  intros H. apply andb_true_iff in H. destruct H as [H1 H2].
+  destruct t as [m|c]; cbn [store no_result]; [rewrite H1|]; rewrite (IH H2); reflexivity.
+Qed.
+
+Lemma stores_all_names e ts : existsb (fun t => negb (is_name t)) ts = false ->
+  map (fun n => EvStoreName n e) (flat_map (fun t => match t with TName k => [k] | _ => [] end) ts) = map (store e) ts.
+Proof.
+  induction ts as [|t r IH]; simpl; [reflexivity|].
+  intros H. apply orb_false_iff in H. destruct H as [H1 H2].
+  destruct t as [m|c]; simpl in *; [rewrite (IH H2); reflexivity | discriminate].
+Qed.
+
+Lemma program_events_plain_stmt s : stmt_wf s = true -> program_events (plain_stmt s) = plain_stmt s.
+Proof.
+  intros H. unfold plain_stmt. destruct (s_value s) as [e|]; [|reflexivity].
+  destruct (is_expr s); [reflexivity|]. destruct (is_assign s); [|reflexivity].
+  change (EvExpr e :: map (store e) (s_targets s)) with ([EvExpr e] ++ map (store e) (s_targets s)).
+  rewrite program_events_app, (program_events_stores e _ (stmt_wf_targets s H)). reflexivity.
+Qed.
+
+Lemma program_events_plain p : prog_wf p = true -> program_events (plain p) = plain p.
+Proof.
+  unfold prog_wf, plain. induction p as [|s r IH]; simpl; [reflexivity|].
+  intros H. apply andb_true_iff in H. destruct H as [H1 H2].
+  rewrite program_events_app, (program_events_plain_stmt s H1), (IH H2). reflexivity.
+Qed.
+
+Lemma last_wf p body last : prog_wf p = true -> p = body ++ [last] -> stmt_wf last = true.
+Proof.
+  intros Hwf Hp. unfold prog_wf in Hwf. rewrite forallb_forall in Hwf. apply Hwf. rewrite Hp.
+  apply in_or_app. right. left. reflexivity.
+Qed.
+
+Lemma body_wf p body last : prog_wf p = true -> p = body ++ [last] -> prog_wf body = true.
+Proof.
+  intros Hwf Hp. unfold prog_wf in *. rewrite forallb_forall in *. intros x Hx. apply Hwf. rewrite Hp.
+  apply in_or_app. left. exact Hx.
+Qed.
+
+(* 0. Apart from binding __result__, evaluate() does exactly what plain execution does: the same events (expression
+      evaluations, statement executions, name bindings and stores through complex targets), each once, in the same order. *)
+Theorem events_equal_plain sh p :
+  shape_ok sh = true -> prog_wf p = true -> program_events (evaluate_events sh p) = plain p.
 Proof.
   intros Hok Hwf. destruct (split_last p) as [[body last]|] eqn:Hs.
   - rewrite (evaluate_events_unfold sh p body last Hok Hs).
     pose proof (split_last_app _ _ _ Hs) as Hp.
-    destruct (s_value last) as [e|] eqn:Hv; [|reflexivity].
-    destruct (existsb (N.eqb (s_kind last)) (sh_kinds sh)) eqn:Hk; [|reflexivity].
-    rewrite Hp, plain_app, !effects_app. f_equal.
+    destruct (s_value last) as [e|] eqn:Hv; [|apply program_events_plain; exact Hwf].
+    destruct (existsb (N.eqb (s_kind last)) (sh_kinds sh)) eqn:Hk; [|apply program_events_plain; exact Hwf].
+    pose proof (last_wf p body last Hwf Hp) as Hl. pose proof (body_wf p body last Hwf Hp) as Hb.
+    rewrite program_events_app, (program_events_plain body Hb). rewrite Hp, plain_app. f_equal.
     cbn [plain flat_map]. rewrite app_nil_r. unfold plain_stmt, good_tail. rewrite Hv.
-    assert (stmt_wf last = true) as Hl.
-    { unfold prog_wf in Hwf. rewrite forallb_forall in Hwf. apply Hwf. rewrite Hp. apply in_or_app. right. left. reflexivity. }
     destruct (popped_kind sh last Hok Hk) as [He | Ha].
     + rewrite He, (expr_not_assign _ He). cbn. reflexivity.
     + rewrite Ha. destruct (is_expr last) eqn:He; [rewrite (expr_not_assign _ He) in Ha; discriminate|].
-      rewrite !effects_app, effects_cons_name, (effects_names e), !effects_cons_expr.
-      change (effects []) with (@nil ev). cbn [app andb]. f_equal.
-      destruct (has_complex last) eqn:Hc; [reflexivity|].
-      unfold has_complex in Hc. rewrite (effects_no_complex e _ Hc). reflexivity.
+      cbn [andb orb]. rewrite !program_events_app.
+      change (program_events [EvExpr e]) with [EvExpr e]. cbn [app]. f_equal.
+      destruct (has_complex last) eqn:Hc; cbn [negb map].
+      * change (program_events [EvStoreName result_name e]) with (@nil ev). cbn [app].
+        apply program_events_stores. exact (stmt_wf_targets last Hl).
+      * change (EvStoreName result_name e :: map (fun n => EvStoreName n e) (name_targets last))
+          with ([EvStoreName result_name e] ++ map (fun n => EvStoreName n e) (name_targets last)).
+        rewrite program_events_app. change (program_events [EvStoreName result_name e]) with (@nil ev).
+        change (program_events []) with (@nil ev). rewrite app_nil_r. cbn [app].
+        unfold name_targets. unfold has_complex in Hc. rewrite (stores_all_names e _ Hc).
+        apply program_events_stores. exact (stmt_wf_targets last Hl).
   - apply split_last_none in Hs. subst. reflexivity.
+Qed.
+
+Lemma effects_program_events l : effects (program_events l) = effects l.
+Proof.
+  unfold effects, program_events. induction l as [|x r IH]; simpl; [reflexivity|].
+  destruct x; cbn [no_result effectful]; try (cbn [filter effectful]; rewrite IH; reflexivity).
+  destruct (negb (N.eqb n result_name)); cbn [filter effectful]; exact IH.
+Qed.
+
+Lemma last_store_program_events n l : n <> result_name -> last_store n (program_events l) = last_store n l.
+Proof.
+  intros Hn. unfold program_events. induction l as [|x r IH]; simpl; [reflexivity|].
+  destruct x as [e|i|m e|t e]; cbn [no_result]; try (cbn [filter last_store]; rewrite IH; reflexivity).
+  destruct (N.eqb m result_name) eqn:Em; cbn [negb filter last_store]; rewrite IH; [|reflexivity].
+  apply N.eqb_eq in Em. subst m. destruct (last_store n r); [reflexivity|].
+  destruct (N.eqb result_name n) eqn:E; [apply N.eqb_eq in E; congruence | reflexivity].
+Qed.
+
+(* 1. every side effect happens exactly once, in the order of plain execution *)
+Lemma effects_equal sh p :
+  shape_ok sh = true -> prog_wf p = true -> effects (evaluate_events sh p) = effects (plain p).
+Proof.
+  intros Hok Hwf. rewrite <- (effects_program_events (evaluate_events sh p)), (events_equal_plain sh p Hok Hwf). reflexivity.
 Qed.
 
 (* 2. every program name ends up bound to the same expression value *)
@@ -159,29 +243,8 @@ Lemma bindings_equal sh p n :
   shape_ok sh = true -> prog_wf p = true -> n <> result_name ->
   last_store n (evaluate_events sh p) = last_store n (plain p).
 Proof.
-  intros Hok Hwf Hn. destruct (split_last p) as [[body last]|] eqn:Hs.
-  - rewrite (evaluate_events_unfold sh p body last Hok Hs).
-    pose proof (split_last_app _ _ _ Hs) as Hp.
-    destruct (s_value last) as [e|] eqn:Hv; [|reflexivity].
-    destruct (existsb (N.eqb (s_kind last)) (sh_kinds sh)) eqn:Hk; [|reflexivity].
-    rewrite Hp, plain_app, !last_store_app.
-    assert (last_store n (good_tail last e) = last_store n (plain [last])) as ->; [|reflexivity].
-    cbn [plain flat_map]. rewrite app_nil_r. unfold plain_stmt, good_tail. rewrite Hv.
-    assert (N.eqb result_name n = false) as Hrn by (apply N.eqb_neq; congruence).
-    destruct (popped_kind sh last Hok Hk) as [He | Ha].
-    + rewrite He, (expr_not_assign _ He). cbn; destruct n as [|pn]; [exfalso; apply Hn; reflexivity | reflexivity].
-    + rewrite Ha. destruct (is_expr last) eqn:He; [rewrite (expr_not_assign _ He) in Ha; discriminate|].
-      cbn [andb]. rewrite !last_store_app.
-      change (EvExpr e :: map (store e) (s_targets last)) with ([EvExpr e] ++ map (store e) (s_targets last)).
-      rewrite last_store_app, last_store_stores.
-      change (EvStoreName result_name e :: map (fun n0 => EvStoreName n0 e) (name_targets last))
-        with ([EvStoreName result_name e] ++ map (fun n0 => EvStoreName n0 e) (name_targets last)).
-      rewrite last_store_app, last_store_names. unfold name_targets. rewrite name_targets_has.
-      destruct (has_complex last).
-      * rewrite last_store_stores. destruct (has_name n (s_targets last)); [reflexivity|].
-        cbn; destruct n as [|pn]; [exfalso; apply Hn; reflexivity | reflexivity].
-      * cbn [last_store]. destruct (has_name n (s_targets last)); [reflexivity|]. cbn; destruct n as [|pn]; [exfalso; apply Hn; reflexivity | reflexivity].
-  - apply split_last_none in Hs. subst. reflexivity.
+  intros Hok Hwf Hn. rewrite <- (last_store_program_events n (evaluate_events sh p) Hn), (events_equal_plain sh p Hok Hwf).
+  reflexivity.
 Qed.
 
 (* 3. the result is the value of the last statement when it is popped *)
@@ -192,21 +255,20 @@ Lemma result_is_last_value sh p body last e :
 Proof.
   intros Hok Hwf Hs Hv Hk. rewrite (evaluate_events_unfold sh p body last Hok Hs), Hv, Hk.
   pose proof (split_last_app _ _ _ Hs) as Hp.
-  assert (stmt_wf last = true) as Hl.
-  { unfold prog_wf in Hwf. rewrite forallb_forall in Hwf. apply Hwf. rewrite Hp. apply in_or_app. right. left. reflexivity. }
+  pose proof (last_wf p body last Hwf Hp) as Hl.
   rewrite last_store_app. unfold good_tail.
-  assert (forall ts, forallb (fun t => match t with TName n => negb (N.eqb n result_name) | _ => true end) ts = true ->
-            has_name result_name ts = false) as Hnr.
-  { induction ts as [|t r IH]; simpl; [reflexivity|]. intros H. apply andb_true_iff in H. destruct H as [H1 H2].
+  assert (forall ts, targets_wf ts = true -> has_name result_name ts = false) as Hnr.
+  { unfold targets_wf. induction ts as [|t r IH]; simpl; [reflexivity|]. intros H. apply andb_true_iff in H. destruct H as [H1 H2].
     rewrite (IH H2), orb_false_r. destruct t as [m|c]; [|reflexivity]. apply negb_true_iff in H1. exact H1. }
-  assert (has_name result_name (s_targets last) = false) as Hno.
-  { apply Hnr. unfold stmt_wf in Hl. apply andb_true_iff in Hl. tauto. }
+  assert (has_name result_name (s_targets last) = false) as Hno by (apply Hnr; exact (stmt_wf_targets last Hl)).
   rewrite !last_store_app.
-  change (EvStoreName result_name e :: map (fun n0 => EvStoreName n0 e) (if is_assign last then name_targets last else []))
-    with ([EvStoreName result_name e] ++ map (fun n0 => EvStoreName n0 e) (if is_assign last then name_targets last else [])).
+  set (ns := if is_assign last && (false || negb (has_complex last)) then name_targets last else []).
+  change (EvStoreName result_name e :: map (fun n0 => EvStoreName n0 e) ns)
+    with ([EvStoreName result_name e] ++ map (fun n0 => EvStoreName n0 e) ns).
   rewrite last_store_app, last_store_names.
-  assert (existsb (fun m => N.eqb m result_name) (if is_assign last then name_targets last else []) = false) as Hn2.
-  { destruct (is_assign last); [|reflexivity]. unfold name_targets. rewrite name_targets_has. exact Hno. }
+  assert (existsb (fun m => N.eqb m result_name) ns = false) as Hn2.
+  { unfold ns. destruct (is_assign last && (false || negb (has_complex last))); [|reflexivity].
+    unfold name_targets. rewrite name_targets_has. exact Hno. }
   rewrite Hn2.
   destruct (is_assign last && has_complex last).
   - rewrite last_store_stores, Hno. cbn. reflexivity.
@@ -215,15 +277,24 @@ Qed.
 
 (* re-executing the right-hand side (ExecComplexAssign false) is NOT what plain execution does *)
 Example reevaluating_plan_refuted :
-  let sh := {| sh_kinds := [k_Expr; k_Assign]; sh_popped := [ExecBody; EvalLast; BindResultNames; ExecComplexAssign false];
+  let sh := {| sh_kinds := [k_Expr; k_Assign]; sh_popped := [ExecBody; EvalLast; BindResultNames false; ExecComplexAssign false];
                sh_other := [ExecBody; BindResultLastGlobal] |} in
   let p := [ {| s_kind := k_Assign; s_value := Some 7; s_targets := [TComplex 3]; s_id := 1 |} ] in
   prog_wf p = true /\ effects (evaluate_events sh p) <> effects (plain p).
 Proof. cbv zeta. split; [vm_compute; reflexivity | vm_compute; discriminate]. Qed.
 
+(* binding the name targets first and then running the whole assignment (BindResultNames true, the code before the repair
+   of the target order) performs the stores in another order than plain execution: `x[i] = i = 2` stores at the new i *)
+Example names_first_plan_refuted :
+  let sh := {| sh_kinds := [k_Expr; k_Assign]; sh_popped := [ExecBody; EvalLast; BindResultNames true; ExecComplexAssign true];
+               sh_other := [ExecBody; BindResultLastGlobal] |} in
+  let p := [ {| s_kind := k_Assign; s_value := Some 7; s_targets := [TComplex 3; TName 5]; s_id := 1 |} ] in
+  prog_wf p = true /\ program_events (evaluate_events sh p) <> plain p.
+Proof. cbv zeta. split; [vm_compute; reflexivity | vm_compute; discriminate]. Qed.
+
 (* popping every statement that has a value attribute (the defect repaired in 41aa311) is refuted as well *)
 Example popping_augassign_refuted :
-  let sh := {| sh_kinds := [k_Expr; k_Assign; k_AugAssign]; sh_popped := [ExecBody; EvalLast; BindResultNames; ExecComplexAssign true];
+  let sh := {| sh_kinds := [k_Expr; k_Assign; k_AugAssign]; sh_popped := [ExecBody; EvalLast; BindResultNames false; ExecComplexAssign true];
                sh_other := [ExecBody; BindResultLastGlobal] |} in
   shape_ok sh = false.
 Proof. vm_compute. reflexivity. Qed.
